@@ -552,29 +552,29 @@ func (r *attRunner) runCase(idx int, c *attCase, lo, hi int) ([]*attEvent, error
 // ---------------------------------------------------------------------------------------------
 
 type attSummary struct {
-	Cases           int            `json:"cases"`
-	Concrete        int            `json:"concrete"`
-	Events          int            `json:"events"`
-	Segments        int            `json:"segments"`
-	Accepted        int            `json:"accepted"`
-	AcceptedMutants int            `json:"accepted_mutants"`
+	Cases                   int            `json:"cases"`
+	Concrete                int            `json:"concrete"`
+	Events                  int            `json:"events"`
+	Segments                int            `json:"segments"`
+	Accepted                int            `json:"accepted"`
+	AcceptedMutants         int            `json:"accepted_mutants"`
 	AcceptedMutantsByRegion map[string]int `json:"accepted_mutants_by_region"`
 	AcceptedMutantKinds     map[string]int `json:"accepted_mutant_kinds"`
-	Panics          int            `json:"panics"`
-	Drift           int            `json:"drift"`
-	DriftSamples    []*attEvent    `json:"drift_samples"`
-	ByRegion        map[string]int `json:"by_region"`
-	ByTime          map[string]int `json:"by_time"`
-	ByPolicy        map[string]int `json:"by_policy"`
-	ByLabel         map[string]int `json:"by_label"`
-	ByScenario      map[string]int `json:"by_scenario"`
-	ByExpect        map[string]int `json:"by_expect"`
-	PastNextUpdate  int            `json:"accepted_past_next_update"`
-	PastNextSample  *attEvent      `json:"accepted_past_next_update_sample,omitempty"`
-	BoundaryAccepted map[string]int `json:"accepted_at_boundary"`
-	BitsSwept       map[string]int `json:"bits_swept"`
-	ExpLabels       map[string]int `json:"exp_labels"` // outcome classes the model expects, over the generated cases
-	Samples         []*attEvent    `json:"samples"`
+	Panics                  int            `json:"panics"`
+	Drift                   int            `json:"drift"`
+	DriftSamples            []*attEvent    `json:"drift_samples"`
+	ByRegion                map[string]int `json:"by_region"`
+	ByTime                  map[string]int `json:"by_time"`
+	ByPolicy                map[string]int `json:"by_policy"`
+	ByLabel                 map[string]int `json:"by_label"`
+	ByScenario              map[string]int `json:"by_scenario"`
+	ByExpect                map[string]int `json:"by_expect"`
+	PastNextUpdate          int            `json:"accepted_past_next_update"`
+	PastNextSample          *attEvent      `json:"accepted_past_next_update_sample,omitempty"`
+	BoundaryAccepted        map[string]int `json:"accepted_at_boundary"`
+	BitsSwept               map[string]int `json:"bits_swept"`
+	ExpLabels               map[string]int `json:"exp_labels"` // outcome classes the model expects, over the generated cases
+	Samples                 []*attEvent    `json:"samples"`
 }
 
 func polClass(p *attPol) []string {
